@@ -14,3 +14,23 @@ reg("C23", "model_checking", "TLA+ spec (SeqCounter, TunnelRx) model-checked wit
     "(exhaustive short histories, long random ones with two wrap-arounds and reconnects, TLC-simulated network behaviours) must be a behaviour of the spec.",
     "Trusted: TLC, the virtual-time loop (real asyncio _run_once), the simulated gateway. Packet lifetime < M-1 frames is an explicit model assumption.",
     "DESIGN.md section 5 C23")
+
+reg("C03", "exploration", "TLA+ TPDU table (Tpci.tla) evaluated by TLC over every recorded decode/encode of the real TPCI classes",
+    "Exhaustive: all 256 octets x 3 destination kinds and all constructible PDUs are run through the real TPCI.resolve/to_knx and each "
+    "recorded result is judged by TLC against the executable TLA+ transcription of the TPDU table, whose own round-trip laws TLC checks first.",
+    "Trusted: TLC's evaluator and the transcription of the KNX TPDU table in Tpci.tla (anchored by its own injectivity/round-trip ASSUMEs).",
+    "DESIGN.md section 5 C03")
+
+reg("C26", "model_checking", "TLA+ spec Heartbeat model-checked with TLC; trace validation of the real ConnectionHeartbeat and UDPTunnel heartbeat under virtual time",
+    "The heartbeat automaton is model-checked for every outcome sequence up to length 9 (properties stated over the outcome history, "
+    "independently of the failure counter); every outcome sequence up to length 4 (6 thorough) plus long random ones is executed on the real "
+    "ConnectionHeartbeat, and ok/fail/no-response plans on the real UDPTunnel, each recorded trace (request times, on_failure calls, task liveness) must be a behaviour of the spec.",
+    "Trusted: TLC, the virtual-time loop, the simulated gateway. The period is read from xknx.io.const.HEARTBEAT_RATE.",
+    "DESIGN.md section 5 C26")
+
+reg("C36", "model_checking", "TLA+ spec TaskReg model-checked with TLC; trace validation of the real Task/TaskRegistry/ConnectionManager under virtual time",
+    "The registry/connection automaton is model-checked for both values of restart_after_reconnect; every operation sequence up to length 4 (5 thorough) "
+    "over start/remove/stop/lost/connected/time for all 24 option combinations, plus long random ones, runs on the real classes and each recorded trace "
+    "(live asyncio instances, new instance created, target invocations in progress after every call) must be a behaviour of the spec with its invariants.",
+    "Trusted: TLC, the virtual-time loop. Reading: the registry is not used after stop(); an instance may end by itself at any time.",
+    "DESIGN.md section 5 C36")
